@@ -1,0 +1,50 @@
+//go:build verif
+
+// Contracts for package erc, read by /verif/govc (comments only).
+package erc
+
+// Collector: an ers.Stack behind a mutex. The lock invariant is the stack's
+// representation invariant; everything is havocked at Lock, so the proofs
+// hold for all interleavings of Add / Len / Resolve.
+//@ lockinv Collector.mu(ec) = sinv(ec.stack)
+//@ lockhavoc Collector.mu(ec) = ec.stack.next, ec.stack.err, ec.stack.count, ec.stack.nodes, ec.stack.view, ec.resolved
+//@ guarded Collector.{stack,resolved} by mu
+
+//@ func (*Collector).Add
+//@   props C12 C13
+//@   option old section
+//@   option acquires ec.mu
+//@   requires ec != nil && !held(ec.mu)
+//@   modifies ec.stack.next, ec.stack.err, ec.stack.count, ec.stack.nodes, ec.stack.view
+//@   option noframe
+//@   ensures ignored: err == nil ==> ec.stack.view == old(ec.stack.view)
+//@   ensures added: plain(err) ==> ec.stack.view == [err] + old(ec.stack.view)
+//@   ensures lossless: len(ec.stack.view) >= len(old(ec.stack.view)) && ec.stack.view[len(ec.stack.view) - len(old(ec.stack.view)):] == old(ec.stack.view)
+
+//@ func (*Collector).Len
+//@   props C12 C13
+//@   option old section
+//@   option acquires ec.mu
+//@   requires ec != nil && !held(ec.mu)
+//@   ensures result == len(ec.stack.view) && ec.stack.view == old(ec.stack.view)
+
+// Resolve is nil exactly when nothing was added.
+//@ func (*Collector).Resolve
+//@   props C12 C13
+//@   option old section
+//@   option acquires ec.mu
+//@   requires ec != nil && !held(ec.mu)
+//@   modifies ec.resolved
+//@   ensures (result == nil) == (len(ec.stack.view) == 0) && ec.stack.view == old(ec.stack.view)
+
+//@ func (*Collector).HasErrors
+//@   props C12 C13
+//@   option old section
+//@   requires ec != nil && !held(ec.mu)
+//@   ensures result == (len(ec.stack.view) != 0)
+
+//@ func (*Collector).Ok
+//@   props C12 C13
+//@   option old section
+//@   requires ec != nil && !held(ec.mu)
+//@   ensures result == (len(ec.stack.view) == 0)
